@@ -292,3 +292,41 @@ Proof.
   exists (mkF [0; 17] [] 8 [10]). eexists. split; [vm_compute; reflexivity|]. split; [repeat constructor; unfold label_ok; lia|].
   split; [vm_compute; repeat split; discriminate|]. vm_compute. discriminate.
 Qed.
+
+(* ---- a whole MP_REACH / MP_UNREACH NLRI field: every element is read back, none is mis-framed by its neighbours *)
+Definition entry_wf (ap : bool) (k : kind) (alen : Z) (e : Z * fnlri) : Prop :=
+  fnlri_wf k alen (snd e) /\ (if ap then u32 (fst e) else fst e = 0).
+
+Lemma enc_fnlri_nonempty k v b : enc_fnlri k v = Some b -> 1 <= blen b.
+Proof.
+  destruct k; cbn [enc_fnlri].
+  - intros H. injection H as <-. rewrite blen_cons. pose proof (blen_nonneg (f_oct v)). lia.
+  - destruct (enc_labels (f_labels v)) as [lb|]; [|discriminate]. intros H. injection H as <-. rewrite blen_cons.
+    pose proof (blen_nonneg (lb ++ f_oct v)). lia.
+  - destruct (enc_labels (f_labels v)) as [lb|]; [|discriminate]. intros H. injection H as <-. rewrite blen_cons.
+    pose proof (blen_nonneg (lb ++ f_rd v ++ f_oct v)). lia.
+Qed.
+
+Theorem nlri_list_roundtrip ap k alen l : forall fuel,
+  Forall (entry_wf ap k alen) l ->
+  exists b, enc_nlri_list ap k l = Some b /\ ((length l <= fuel)%nat -> dec_nlri_list fuel ap k alen b = Some l).
+Proof.
+  induction l as [|[id v] l IH]; intros fuel Hw.
+  - exists []. split; [reflexivity|]. intros _. destruct fuel; reflexivity.
+  - inversion Hw as [|? ? (Hv & Hid) Hl]; subst. cbn [fst snd] in *.
+    destruct (IH (pred fuel) Hl) as (t & Et & Dt).
+    destruct (fnlri_roundtrip k alen v t Hv) as (b & Eb & Lb & Db).
+    exists ((if ap then be32 id else []) ++ b ++ t). split; [cbn [enc_nlri_list]; now rewrite Eb, Et|].
+    intros Hf. destruct fuel as [|fuel]; [cbn in Hf; lia|]. cbn [pred] in Dt.
+    pose proof (enc_fnlri_nonempty k v b Eb) as Hb1.
+    assert (Hne : (if ap then be32 id else []) ++ b ++ t <> []).
+    { destruct ap; [discriminate|]. cbn [app]. destruct b; [cbn in Hb1; lia|discriminate]. }
+    cbn [dec_nlri_list]. destruct ((if ap then be32 id else []) ++ b ++ t) as [|x xs] eqn:E; [congruence|]. rewrite <- E. clear Hne E x xs.
+    destruct ap.
+    + rewrite (take_app_n 4 (be32 id)) by reflexivity. rewrite be32_de32 by exact Hid. rewrite Db.
+      rewrite blen_app. pose proof (blen_nonneg t). destruct (blen b + blen t <? blen b) eqn:E1; [lia|].
+      rewrite skipn_blen_app. rewrite Dt by (cbn in Hf; lia). reflexivity.
+    + subst id. cbn [app]. rewrite Db.
+      rewrite blen_app. pose proof (blen_nonneg t). destruct (blen b + blen t <? blen b) eqn:E1; [lia|].
+      rewrite skipn_blen_app. rewrite Dt by (cbn in Hf; lia). reflexivity.
+Qed.
